@@ -135,7 +135,7 @@ type RobustFinding struct {
 func checkRobust(r Result) (string, string) {
 	switch {
 	case r.Panic != "":
-		return "robust/panic/" + r.Runtime, firstLines(r.Panic, 12)
+		return "robust/panic/" + r.Runtime, firstLines(r.Panic, 24)
 	case r.Hang:
 		return "robust/hang/" + r.Runtime, fmt.Sprintf("no result within %s", ExecTimeout)
 	case r.Partial:
@@ -181,18 +181,33 @@ func RunRobust(c *Case, tokenMutations bool, withInterp bool, seen func(string) 
 	return out
 }
 
-// RobustSignature: the kind + the first frame of the panic that is inside the ledger/numscript code.
+// RobustSignature: kind (which runtime, what went wrong) + class of the input + (for panics) the
+// first frame inside the ledger / numscript code.
+//
+// All "the store did not return the balance a balance() variable asked for" panics share one
+// signature (the Monetary resource keeps a nil amount; the first dereference varies).
 func RobustSignature(f RobustFinding) string {
 	label := f.Variant.Label
-	if i := strings.LastIndex(label, "/"); i > 0 && strings.HasPrefix(label, "ill-typed/") {
-		label = label[:i]
+	class := label
+	if i := strings.Index(label, "/"); i > 0 {
+		class = label[:i]
+	}
+	if strings.HasPrefix(label, "ill-typed/") {
+		parts := strings.Split(label, "/")
+		class = parts[0] + "/" + parts[1]
+	}
+	if strings.HasPrefix(label, "store-") {
+		class = "missing-balance"
+		if strings.Contains(f.Variant.Script, "= balance(") {
+			return f.Kind + "/missing-balance/balance-var"
+		}
 	}
 	site := ""
 	if strings.Contains(f.Kind, "panic") {
 		lines := strings.Split(f.Detail, "\n")
 		for i, line := range lines {
 			line = strings.TrimSpace(line)
-			if i > 0 && strings.HasPrefix(line, "/") && (strings.Contains(line, "/internal/machine/") || strings.Contains(line, "numscript@")) && !strings.Contains(line, "verif/harness") {
+			if i > 0 && strings.HasPrefix(line, "/") && (strings.Contains(line, "/internal/machine/") || strings.Contains(line, "/internal/controller/") || strings.Contains(line, "numscript@")) && !strings.Contains(line, "verif/harness") {
 				// previous line: fully qualified function name with arguments
 				fn := strings.TrimSpace(lines[i-1])
 				if j := strings.LastIndex(fn, "("); j > 0 {
@@ -206,7 +221,7 @@ func RobustSignature(f RobustFinding) string {
 			}
 		}
 	}
-	return f.Kind + "/" + label + site
+	return f.Kind + "/" + class + site
 }
 
 func sortedHashKeys(m map[string]bool) []string {
